@@ -356,8 +356,16 @@ class Session:
             lp = self.ptr_at(sid, steps)
             sp, sm = self.source_ptr_model(src)
             if op == 'l_set':
+                # a reference to the member obtained beforehand stays the member: the replacement is made in place and
+                # "will be visible to code that holds a reference"
+                held = L.list_get(lp, i)[1] if (cur[0] == 'list' and 0 <= i < n) else None
                 rc = L.call('cif_value_set_element_at', lp, i, sp)
                 rcs, new = M.op_list_set(cur, i, sm)
+                if held and rc == CIF_OK:
+                    now = L.list_get(lp, i)[1]
+                    if now != held:
+                        raise Mismatch('state:l_set:member-object-replaced', 'cif_value_set_element_at put a different object into the slot: the reference obtained before the call no longer denotes the member')
+                    self.ctx.count('references_held_across_a_set')
             else:
                 rc = L.call('cif_value_insert_element_at', lp, i, sp)
                 rcs, new = M.op_list_insert(cur, i, sm)
@@ -406,9 +414,15 @@ class Session:
                 if src[0] == 'path' and self.related(sid, steps, src[1], src[2]):
                     return
                 sp, sm = self.source_ptr_model(src)
+                rch, held = L.table_get(tp, key) if cur[0] == 'table' else (None, None)
                 rc = L.call('cif_value_set_item_by_key', tp, U(key), sp)
                 rcs, new = M.op_table_set(cur, key, sm)
                 self.expect('set_item_by_key(%s)' % cur[0], rc, rcs, repr(key))
+                if rch == CIF_OK and held and rc == CIF_OK:
+                    # an existing entry is overwritten in place (documented like the list case)
+                    if L.table_get(tp, key)[1] != held:
+                        raise Mismatch('state:t_set:member-object-replaced', 'cif_value_set_item_by_key put a different object under an existing key: the reference obtained before the call no longer denotes the entry')
+                    self.ctx.count('references_held_across_a_set')
                 self.update(sid, steps, new)
                 if src[0] == 'path':
                     touched_v.add(src[1])
